@@ -13,6 +13,7 @@
 
 mod fam_buffers;
 mod fam_options;
+mod fam_preproc;
 mod fam_wire;
 mod supervisor;
 mod util;
@@ -76,6 +77,7 @@ pub fn make_family(name: &str) -> Option<Box<dyn Family>> {
     match name {
         "options" => Some(Box::new(fam_options::Options::default())),
         "buffers" => Some(Box::new(fam_buffers::Buffers::default())),
+        "preproc" => Some(Box::new(fam_preproc::Preproc::default())),
         "wire" => Some(Box::new(fam_wire::Wire::default())),
         _ => None,
     }
